@@ -109,7 +109,11 @@ func (w *Worker) Do(c Case) Result {
 	w.Transitions++
 	cc := c
 	currentCase.Store(&cc)
-	callStart.Store(time.Now().UnixNano())
+	if !w.Check.Instr {
+		// instrumented checks guard every library call with a statement budget instead; one of
+		// their cases may legitimately run many long calls
+		callStart.Store(time.Now().UnixNano())
+	}
 	r := w.Check.Eval(c)
 	callStart.Store(0)
 	w.Account(c, r)
